@@ -299,6 +299,7 @@ def run(P, R, tier):
     from . import c07 as C07
     C07.fresh_rule(P, R, "C06.fresh")
     ptrorder_rule(P, R)
+    staticinit_rule(P, R)
 
     # ------------------------------------------------------------------ C06.nondet
     rn = R.rule("C06.nondet", "nondeterminism sources (clock, random, env, pid) only at the status/elapsed-time sites", minimum=3)
@@ -546,3 +547,44 @@ def ptrorder_rule(P, R):
         else:
             for line, why in bad:
                 R.violation(RULE, g["q"] + ":" + str(line), why + " (not a listed same-buffer position test)", file=g["file"], line=line, function=g["q"])
+
+
+def staticinit_rule(P, R):
+    """A function-local `static` is one object for the whole process, initialised by whichever call comes first.  If its initialiser
+    reads the instance (a member, `this`, a call of a non-static member function such as string_hsave) the value belongs to that first
+    instance: every later instance, and the same instance after a reload, compares against or dereferences state of another object - a
+    const qualifier does not help, and no race detector sees it.  Every function-local static must have a constant initialiser: literals,
+    initialiser lists of literals, addresses of globals / functions."""
+    RULE = "C06.staticinit"
+    R.rule(RULE, "function-local statics have constant initialisers (nothing read from the instance that happens to run first)", minimum=30)
+    n = 0
+    for k, g in sorted(P.functions.items(), key=lambda kv: kv[1]["q"]):
+        for x in T.walk(g["body"]):
+            if x[0] != "Decl":
+                continue
+            for d in x[2]:
+                if not (isinstance(d, list) and len(d) > 3 and d[3] == "static"):
+                    continue
+                n += 1
+                inst = "%s:%s" % (g["q"].split("::")[-1], d[0])
+                init = d[2]
+                bad = None
+                if T.is_node(init):
+                    for y in T.walk(init):
+                        if y[0] == "This":
+                            bad = "reads `this`"
+                        elif y[0] == "Member" and T.is_node(y[3]) and any(z[0] == "This" for z in T.walk(y[3])):
+                            bad = "reads the member %s" % y[2]
+                        elif y[0] == "Call" and isinstance(y[2], dict) and y[2].get("k") in ("method", "virtual") and not y[2].get("static"):
+                            bad = "calls the member function %s" % (T.callee_q(y) or "?")
+                        elif y[0] == "Ref" and y[2] in ("local", "param"):
+                            bad = "reads the local `%s`" % y[3]
+                        if bad:
+                            break
+                if bad:
+                    R.violation(RULE, inst, "the function-local static `%s` of %s %s in its initialiser: it keeps the value of the first instance that runs the function for every other "
+                                "instance in the process" % (d[0], g["q"], bad), file=g["file"], line=x[1], function=g["q"])
+                else:
+                    R.ok(RULE, inst, "constant initialiser")
+    if n < 30:
+        R.anchor_missing(RULE, "only %d function-local statics found" % n)
